@@ -48,6 +48,58 @@ def cmd_digest(argv):
     return 0
 
 
+def cmd_selftest(argv):
+    """large-sample determinism: every scenario of the named checks (default: all), N seeds each, executed
+    (a) in one sweep with 16 workers and (b) seed by seed in fresh interpreters with another PYTHONHASHSEED and another
+    process layout (different neighbours in the same process, which also tests run isolation); digests must agree."""
+    import subprocess
+    from . import runner
+    import checks
+    n = int(os.environ.get('VERIF_SELFTEST_N', '48'))
+    ids = argv or sorted(checks.CHECKS)
+    bad = 0
+    total = 0
+    for prop in ids:
+        spec = checks.CHECKS[prop]
+        for sc in spec['scenarios']:
+            mod = sc['module']
+            params = sc.get('params', {})
+            sw = runner.Sweep(prop, 'quick', int(os.environ.get('VERIF_SEED', '0') or 0), 16)
+            seeds = [sw.base_seed * 1_000_003 + sc.get('seed_offset', 0) + i for i in range(n)]
+            import concurrent.futures
+            import multiprocessing
+            ctx = multiprocessing.get_context('fork')
+            chunk = max(1, n // 16)
+            chunks = [seeds[i:i + chunk] for i in range(0, n, chunk)]
+            first = {}
+            with concurrent.futures.ProcessPoolExecutor(16, mp_context=ctx, initializer=runner._worker_init) as ex:
+                for res in ex.map(runner._run_chunk, [mod] * len(chunks), chunks, ['quick'] * len(chunks),
+                                  [prop] * len(chunks), [params] * len(chunks), [900.0] * len(chunks)):
+                    for r in res:
+                        first[r['seed']] = r['digest']
+            # second layout: 3 fresh interpreters, interleaved seed assignment, other hash seed
+            second = {}
+            procs = []
+            for k in range(3):
+                mine = seeds[k::3]
+                env = dict(os.environ, PYTHONHASHSEED='4242', VERIF_REEXEC='1', VERIF_PARAMS=json.dumps(params))
+                procs.append(subprocess.Popen([sys.executable, '-m', 'simkit.cli', 'digest', mod, 'quick', prop] +
+                                              [str(x) for x in reversed(mine)], cwd=VERIF, env=env,
+                                              stdout=subprocess.PIPE, stderr=subprocess.DEVNULL, text=True))
+            for pr in procs:
+                out, _ = pr.communicate(timeout=3000)
+                for line in out.strip().splitlines():
+                    a, b = line.split()
+                    second[int(a)] = b
+            diff = [x for x in seeds if first.get(x) != second.get(x)]
+            total += len(seeds)
+            bad += len(diff)
+            print(f'[selftest] {prop} {mod}: {len(seeds)} seeds, {len(diff)} digest mismatches'
+                  + (f' (first: seed {diff[0]})' if diff else ''), flush=True)
+    print(f'[selftest] {total} runs compared, {bad} mismatches')
+    return 0 if bad == 0 else 2
+
+
 def cmd_check(argv):
     from . import runner
     import checks
@@ -269,6 +321,8 @@ def main():
         return cmd_digest(argv[1:])
     if cmd == 'check':
         return cmd_check(argv[1:])
+    if cmd == 'selftest':
+        return cmd_selftest(argv[1:])
     return cmd_check(argv)
 
 
